@@ -263,3 +263,33 @@ Definition addr_info (m : list sym) (addr : Z) : option string :=
         if sym_is_data s && (uadd (sy_addr s) (sy_size s) <=? addr) then None
         else Some (sy_name s)
   end.
+
+(* ---- addr2liner.go:208 addr2Liner.addrInfo: the nm fix-up of incomplete addr2line names ----
+   [stack] = Func names of the frames addr2line answered (last = the non-inlined frame).
+   The nm table attached by fileAddr2Line.init is newAddr2LinerNM(nm, name, f.base): it is keyed by
+   RUNTIME addresses (link address + base, [shift_syms]). *)
+
+(* the address the attached nm table is asked about: the runtime address itself *)
+Definition a2l_nm_query (base addr : Z) : Z := addr.
+
+Definition replace_last (l : list string) (x : string) : list string := removelast l ++ [x].
+
+(* the replacement rule given the nm answer: only when the nm name is longer by 2 or more bytes *)
+Definition a2l_apply_nm (r : option string) (stack : list string) : list string :=
+  match stack, r with
+  | [], _ => stack
+  | _, None => stack
+  | _, Some nmName =>
+      if (Z.of_nat (String.length (last stack "")) + 1 <? Z.of_nat (String.length nmName))
+      then replace_last stack nmName else stack
+  end.
+
+(* [nm] = None: no nm table attached (d.nm == nil) *)
+Definition a2l_addr_info (base : Z) (nm : option (list sym)) (addr : Z) (stack : list string) : list string :=
+  match nm with
+  | None => stack
+  | Some tab => match stack with
+                | [] => stack
+                | _ => a2l_apply_nm (addr_info tab (a2l_nm_query base addr)) stack
+                end
+  end.
